@@ -28,7 +28,7 @@ def setup(k):
 
 def worker(k, q, results, tier):
     r, v = setup(k)
-    env = dict(os.environ, VERIF_REPO=r)
+    env = dict(os.environ, VERIF_REPO=r, VERIF_NO_SHRINK="1")
     while True:
         try:
             name = q.get_nowait()
